@@ -5,6 +5,7 @@ TODO: Handle sys.argv
 
 """
 
+import ast
 import sys
 import io
 import types
@@ -762,14 +763,32 @@ class Sandbox:
         """
         if isinstance(value, SandboxVariable):
             return value.name
-        if len(repr(value)) <= self.MAXIMUM_TEMPORARY_LENGTH:
-            return repr(value)
+        literal = repr(value)
+        if (len(literal) <= self.MAXIMUM_TEMPORARY_LENGTH and
+                self._is_faithful_literal(literal, value)):
+            return literal
         key = '_temporary_{}_{}'.format(category, name)
         if key in self.data:
             self._backup_variables[key] = self.data[key]
         self._temporary_variables.add(key)
         self.data[key] = value
         return key
+
+    @staticmethod
+    def _is_faithful_literal(literal, value):
+        """
+        Determines whether the text `literal` (the ``repr`` of `value`) is a
+        Python literal that evaluates back to an equal value of the same type.
+        That is not the case for, e.g., ``float('inf')`` (``inf``), ``float('nan')``,
+        ``range(3)``, or an object with the default ``repr``; those values have to
+        be passed through a temporary variable instead of being written into the
+        generated call.
+        """
+        try:
+            parsed = ast.literal_eval(literal)
+            return type(parsed) is type(value) and bool(parsed == value)
+        except Exception:
+            return False
 
     def make_safe_variable(self, name):
         """
